@@ -165,7 +165,12 @@ impl MetricSink for GatedSink {
             self.sh.cv.notify_all();
         }
         match out {
-            Out::Ok => Ok(metric.len()),
+            // the value a wrapped sink returns with Ok is its own business (NopMetricSink returns 0): vary it
+            Out::Ok => Ok(match crate::rng::hash_str(metric) % 4 {
+                0 => 0,
+                1 => usize::MAX,
+                _ => metric.len(),
+            }),
             Out::Err(k) => Err(io::Error::new(ERR_KINDS[k as usize % ERR_KINDS.len()], format!("scripted-error:{}", metric))),
             Out::Panic => panic!("scripted-panic:{}", metric),
         }
